@@ -101,6 +101,10 @@ func (g *core) apply(c gengo.Context, kind string, obj *types.TypeName, rules ma
 		rule = rules["* *"]
 	}
 	switch act {
+	case actGenPanic:
+		// the process dies by an unrecovered panic inside the generator: gengo's deferred functions run
+		var m map[string]int
+		m["injected panic in generator"] = 1
 	case actGenError:
 		return fmt.Errorf("%w (injected)", errScripted)
 	case actGenUnparseable:
@@ -115,6 +119,8 @@ func (g *core) apply(c gengo.Context, kind string, obj *types.TypeName, rules ma
 		c.Defer(func(dc gengo.Context) error {
 			dev := proto.Event{Kind: "defer", Gen: g.script.Name, Pkg: ctxPkg(dc), Type: typeName, Inst: st.serial, N: idx}
 			switch rec.genEvent(dev) {
+			case actGenPanic:
+				panic("injected panic in deferred callback")
 			case actGenError:
 				return fmt.Errorf("%w (injected in defer)", errScripted)
 			case actGenUnparseable:
@@ -250,24 +256,28 @@ func (g *noNew3) GenerateAliasType(c gengo.Context, t *types.Alias) error {
 	return g.bind(3).generateAlias(c, t)
 }
 
+// newSlot returns the prototype that is handed to Execute. Like a generator
+// built by a constructor it already holds allocated state; gengo must not let
+// that state reach the per-package instances it creates with reflect.New.
 func newSlot(slot int) gengo.Generator {
+	sc := slotCore{core{st: &instState{serial: rec.nextSerial(), helper: true, seen: 100}}}
 	switch slot {
 	case 0:
-		return &noNew0{}
+		return &noNew0{sc}
 	case 1:
-		return &noNew1{}
+		return &noNew1{sc}
 	case 2:
-		return &noNew2{}
+		return &noNew2{sc}
 	case 3:
-		return &noNew3{}
+		return &noNew3{sc}
 	case 4:
-		return &noNew4{}
+		return &noNew4{sc}
 	case 5:
-		return &noNew5{}
+		return &noNew5{sc}
 	case 6:
-		return &noNew6{}
+		return &noNew6{sc}
 	}
-	return &noNew7{}
+	return &noNew7{sc}
 }
 
 func buildGenerators(scripts []proto.GenScript) ([]gengo.Generator, error) {
